@@ -472,6 +472,7 @@ class Interp:
         self.cycle_expr: dict[Any, Any] = {}
         self.cycle_val: dict[Any, Any] = {}
         self.offsets: dict[str, tuple[int, bool]] = {}
+        self.offset_items: dict[str, list[Any]] = {}
         self.active_keys: list[str] = []
         self.macros: dict[str, dict[str, Any]] = {}
         self.loops: list[ForLoop] = []
@@ -924,8 +925,8 @@ class Interp:
             return [[k, x] for k, x in v.items()]  # docs: a for loop iterates mapping items
         if isinstance(v, str):
             return list(v)  # CTS 'tags, for, string'
-        if is_nil(v):
-            return []
+        if v is UNDEF:
+            return []  # docs: 'you can ... iterate an undefined variable without error'
         raise Undoc(f"for over {type(v).__name__}")
 
     def _count(self, e: Any, what: str) -> int:
@@ -938,12 +939,16 @@ class Interp:
 
     def for_loop(self, s: dict[str, Any], out: list[Any]) -> None:
         items = self.iterable(s["iter"])
-        key = s["var"] + "-" + json.dumps(s["iter"], sort_keys=True)
+        # docs: 'a previous loop with the same iterable'; CTS: and the same loop variable
+        key = s["var"] + "-" + json.dumps(s["iter"], sort_keys=True).replace('["si",', '["i",')
         limit = self._count(s["limit"], "limit") if s.get("limit") is not None else None
         off = s.get("offset")
         if off == "continue":
             if key in self.active_keys:
                 raise Undoc("offset:continue nested in a loop with the same name")
+            if key not in self.offsets and any(k != key and k.startswith(s["var"] + "-") and v == items and items
+                                               for k, v in self.offset_items.items()):
+                raise Undoc("offset:continue after a loop over an equal iterable written differently")
             offset, exact = self.offsets.get(key, (0, True))
             if not exact and len(items) > offset:
                 raise Undoc("offset:continue after a limit that ran past the end")
@@ -956,6 +961,7 @@ class Interp:
         # CTS 'offset, continue, broken': the next loop continues after the sliced window, not after
         # the last item actually rendered; a limit running past the end leaves the position open
         self.offsets[key] = (offset + len(sliced), limit is None or offset + limit <= len(items))
+        self.offset_items[key] = items
         if s.get("reversed"):
             sliced = list(reversed(sliced))
         if not sliced:
